@@ -147,6 +147,16 @@ class Gen:
         self.w(h)
         return h
 
+    def hidden_rich(self):
+        """hidden word inside a removed environment, possibly wrapped in a macro whose argument
+        would be kept or detached outside the environment"""
+        wrap = self.rnd.choice(['', '', '\\footnote{%s}', '\\caption{%s}', '\\textbf{%s}', '\\emph{%s} ',
+                                '\\zzunk{%s}', '\\footnote{\\textbf{%s} %s}', '\\footnotetext{%s}',
+                                '\\marginpar{%s}'])
+        if not wrap:
+            return self.hidden()
+        self.w(wrap % tuple(self.hid_txt() for i in range(wrap.count('%s'))))
+
     def gen(self, text, lo, hi, tag):
         for c in text:
             if not c.isspace():
@@ -525,7 +535,7 @@ class Gen:
         if self.rnd.random() < .4:
             self.w('[language=' + self.hid_txt() + ']')
         self.w('\n')
-        self.hidden()
+        self.hidden_rich()
         self.w(' { } \\foo\n')
         self.w('\\end{lstlisting}')
 
@@ -663,14 +673,14 @@ class Gen:
         self.w(' \\zzdraw{')
         self.hidden()
         self.w('}' + self.rnd.choice(['\n\n', ' ', ' $x$ ']))
-        self.hidden()
+        self.hidden_rich()
         self.w('\\end{' + env + '}')
 
     def k_removed_ext(self):
         self.need_ext = True
         st = self.pos()
         self.w('\\begin{yvmremoved}')
-        self.hidden()
+        self.hidden_rich()
         self.w(' \\zzdraw{' + self.hid_txt() + '} ')
         self.w('\\end{yvmremoved}')
         self.gen('yvmrepl', st + 1, self.pos(), 'removed-env-repl')
